@@ -6,10 +6,11 @@ import sys
 import sysconfig
 
 import iglib
+from extract import c02_keywords
 from gen import pymodgen
 from props.c12 import workdir
 
-THEOREMS = ["IgVerif.C02.c02_dispatch_unique", "IgVerif.C02.c02_dispatch_order_independent", "IgVerif.C02.c02_first_viable_is_best", "IgVerif.C02.c02_arity_gate",
+THEOREMS = ["IgVerif.C02.c02_keywords_cover", "IgVerif.C02.c02_rank_facts", "IgVerif.C02.c02_rank_order_gives_hsorted", "IgVerif.C02.c02_dispatch_unique", "IgVerif.C02.c02_dispatch_order_independent", "IgVerif.C02.c02_first_viable_is_best", "IgVerif.C02.c02_arity_gate",
             "IgVerif.C02.c02_no_viable_typeerror"]
 PARTIAL = [("c02_module_behaviour (values, identity, constness, ownership, exceptions of every call sequence)",
             "the generated C and the py_panda runtime are not modelled; behaviour is decided per run by building real extension modules from generated class libraries "
@@ -50,8 +51,15 @@ def build_module(bdir, d, header, sources, modname, log):
 def run(ck):
     quick = ck.quick
     rng = ck.rng
+    ch, err = c02_keywords.main()
+    ck.oblige("translator c02_keywords.py read pythonKeywords[] and get_type_sort", err is None, err or "")
     ck.lean_obligations("IgVerif.Props.C02", THEOREMS, PARTIAL)
-    ck.trusted += ["CPython %s and g++ 12 (the module is really built and imported)" % sysconfig.get_config_var("VERSION"), "/verif/shims (stand-ins for pnotify.h, register_type.h, dconfig.h)",
+    import keyword
+    lean_list = re.search(r"def python3Keywords : List String :=\s*\[(.*?)\]", (iglib.LEAN / "IgVerif" / "Props" / "C02.lean").read_text(), re.S)
+    lean_kws = re.findall(r'"([^"]+)"', lean_list.group(1)) if lean_list else []
+    ck.oblige("the keyword list the theorem quantifies over is keyword.kwlist of the running CPython", sorted(lean_kws) == sorted(keyword.kwlist),
+              "Lean: %s\nCPython: %s" % (sorted(lean_kws), sorted(keyword.kwlist)))
+    ck.trusted += ["tools/extract/c02_keywords.py", "CPython %s and g++ 12 (the module is really built and imported)" % sysconfig.get_config_var("VERSION"), "/verif/shims (stand-ins for pnotify.h, register_type.h, dconfig.h)",
                    "tools/gen/pymodgen.py: every C++ body is also emitted as a Python formula, the expected overload is fixed by construction (sets distinguishable by type category)"]
     bdir = iglib.build_repo("std")
     wd = workdir(ck)
